@@ -313,7 +313,7 @@ pub fn property(tier: Tier) -> Property {
             )
         },
         rule: "start term over the F_5 language (summation over the index set {0,1}) (half of them a context around an instance of a rule's left side), a subset of 1-7 of the 32 model-valid rules (conditions assembled from the library's slot_free_in / and / or / not) (assoc/comm/distrib, units, sum linearity both ways, scaling into and out of the binder, sum shift, let rules, b[x:=t] right sides), 1-4/5 iterations under apply_rewrites or Runner (node limit 1500), both substitution methods; every e-node of every class evaluated in 8 random environments against the class's Bellman-Ford-cheapest e-node, redundant slots given fresh random values, root against direct evaluation of the start term; non-trivial = rewriting changed the e-graph, a binder rule was in the set, the start term has a binder and some class has >= 3 e-nodes; distinct by rendered case",
-        case_timeout_s: tier.pick(120, 600),
+        case_timeout_s: tier.pick(30, 120),
         exhaustive: false,
     })];
     Property {
